@@ -23,7 +23,12 @@ XMax(o) == FMaxAbs(o.xs)
 YMax(o) == FMaxAbs([i \in 1..N(o) |-> CAbs(o.ys[i])])
 Scale(o) == FAdd(F1, FAdd(YMax(o), FMul(FMax(CAbs(o.f0), CAbs(o.fn)), HMax(o))))
 Cond(o) == LET r == FDiv(HMax(o), MinH(o, 1)) x == FAdd(F1, XMax(o)) IN FMul(FMul(r, r), FMul(x, FMul(x, x)))
-Tol0(o) == FMul(FMul(KS, FEps), FMul(Scale(o), Cond(o)))         \* values
+\* the pieces are stored expanded in powers of x: the cubic coefficient of a piece is of size dy / h^3 and is
+\* multiplied by x^3, so rounding is amplified by (|x| / h_min)^3 whatever the ratio of the spacings
+\* (thorough tier: six knots 0.03-0.07 apart near x = -7.9 interpolate to 1e-7 only); worst observed ratio over
+\* 12,000 seeded splines: 7.6 eps * Scale * CondX
+CondX(o) == LET q == FAdd(F1, FDiv(XMax(o), MinH(o, 1))) IN FMul(q, FMul(q, q))
+Tol0(o) == FMul(FEps, FMul(Scale(o), FMax(FMul(KS, Cond(o)), FMul(FOfInt(64), CondX(o)))))         \* values
 Tol1(o) == FDiv(Tol0(o), MinH(o, 1))                              \* first derivatives
 Tol2(o) == FDiv(Tol1(o), MinH(o, 1))                              \* second derivatives
 P(o, i, j) == o.obs.pts[N(o) + 5 * (i - 1) + j]                   \* j-th probe of piece i
